@@ -504,9 +504,13 @@ def run_case(case, fail, stats):
             return
         s1, s2 = snapshot(env.box), snapshot(env2.box)
         if s1 != s2 and "nan" not in json.dumps([s1, s2]):
+            extra = {}
+            if lossy_complex_literal(case["defs"]) and same_up_to_zero_signs(env.box, env2.box):
+                extra["known"] = "D29"     # KNOWN_FINDINGS.json: the text of such a constant reads back with another zero sign
             fail("C13", "function-differs-from-assignments", {"defs": case["defs"], "args": case["args"],
                                                               "via_function": s1, "via_manager": s2,
-                                                              "source": env.m.mk_fun("f", **{"x%d" % i: env.r[nm] for i, nm in enumerate(names)})})
+                                                              "source": env.m.mk_fun("f", **{"x%d" % i: env.r[nm] for i, nm in enumerate(names)})},
+                 **extra)
     elif kind == "eqhash":
         m = xdeps.Manager()
         c = m.ref({}, case.get("label", "c"))
@@ -616,8 +620,15 @@ def run_case(case, fail, stats):
                         outcome(lambda: h2.__setitem__(case["targets"][i], env3.build(t)))
                     else:
                         outcome(lambda: r2.__setitem__(case["targets"][i], env3.build(t)))
+            labels_before = dict(m2.containers)
             res = outcome(lambda: m2.copy_expr_from(env.m, "r", {env.m.containers["r"]: r2},
                                                     overwrite=case.get("overwrite", True)))
+            for lb, rf in labels_before.items():
+                if m2.containers.get(lb) is not rf:
+                    # the namespace that later text is evaluated in: a label of the destination now names something else
+                    fail("C11", "copyfrom-rebinds-destination-label", {"label": lb, "now": str(m2.containers.get(lb)),
+                                                                        "case": {k: case[k] for k in case if k != "vals"}})
+                    return
         if res[0] != "ok":
             fail("C11", kind + "-raises", {"case": {k: case[k] for k in case if k != "vals"}, "exc": res[1]})
             return
@@ -648,6 +659,15 @@ def run_case(case, fail, stats):
                 if s1 != s2:
                     fail("C11", kind + "-followup-differs", {"assign": name, "original": s1, "copy": s2})
                     return
+        # the text of the new manager's own definitions, read back by itself, changes nothing
+        d0 = outcome(m2.dump)
+        if d0[0] == "ok":
+            sb = snapshot(box2)
+            back = outcome(lambda: m2.load(d0[1]))
+            d1 = outcome(m2.dump)
+            if back[0] == "ok" and (d1 != d0 or (snapshot(box2) != sb and "nan" not in json.dumps([sb, snapshot(box2)]))):
+                fail("C11", kind + "-own-dump-not-a-fixpoint", {"dump": d0[1], "after_reload": d1[1] if d1[0] == "ok" else d1,
+                                                                "case": {k: case[k] for k in case if k != "vals"}})
     else:
         raise ValueError(kind)
 
@@ -729,6 +749,40 @@ def quiet(f):
     import io, contextlib
     with contextlib.redirect_stdout(io.StringIO()):
         return f()
+
+
+def lossy_complex_literal(t):
+    """does the term (or list of terms) contain a complex constant whose Python text does not read back bit for bit
+    (repr(complex(0.0, -2.0)) == '-2j', which Python reads as complex(-0.0, -2.0))?"""
+    if isinstance(t, dict):
+        if "complex" in t:
+            c = val_py(t)
+            try:
+                d = eval(repr(c), {"inf": float("inf"), "nan": float("nan")})
+            except Exception:
+                return True
+            d = complex(d)
+            return (c.real.hex(), c.imag.hex()) != (d.real.hex(), d.imag.hex())
+        return any(lossy_complex_literal(x) for x in t.values())
+    if isinstance(t, (list, tuple)):
+        return any(lossy_complex_literal(x) for x in t)
+    return False
+
+
+def same_up_to_zero_signs(b1, b2):
+    """the two container states hold equal values everywhere (==), i.e. they differ at most in the sign of a zero"""
+    def eq(a, b):
+        if type(a) is not type(b):
+            return False
+        if isinstance(a, dict):
+            return list(a) == list(b) and all(eq(a[k], b[k]) for k in a)
+        if isinstance(a, (list, tuple)):
+            return len(a) == len(b) and all(eq(x, y) for x, y in zip(a, b))
+        try:
+            return bool(a == b) or (a != a and b != b)
+        except Exception:
+            return False
+    return eq(b1, b2)
 
 
 def snapshot(box):
@@ -961,6 +1015,9 @@ def cases_c13(rng, n):
     vals0 = {"v0": {"float": (12.345).hex()}, "v1": {"int": 3}, "v2": {"int": 5}, "v3": {"int": 2}}
     for t in fixed:
         yield {"kind": "genfun", "vals": vals0, "defs": [t], "args": [["v1", {"int": 5}], ["v0", {"float": (2.5).hex()}]]}
+    # known finding D29: the text of the constant complex(0.0, -2.0) is "-2j", which reads back as complex(-0.0, -2.0)
+    yield {"kind": "genfun", "vals": vals0, "defs": [["bin", "truediv", ["lit", {"complex": [(0.0).hex(), (-2.0).hex()]}], ["ref", "v3"]]],
+           "args": [["v3", {"int": 1}]]}
     for i in range(n):
         vals = gen_vals(rng, ["int", "float"])
         defs = [gen_term(rng, rng.randint(1, 4)) for _ in range(rng.randint(1, 3))]
